@@ -41,6 +41,16 @@ def check(model: Model, rep: Report, tier: str):
         share_rule(rep, model, lambda m, r: h5(m, r, cg), "C04.D6", "the start of what follows a block is memoised per link: the memo key separates links to different blocks, "
                    "so a follower never receives the end of another block (= C03.H5)",
                    keep=lambda o: "/structure/" in o["loc"] or "/language/" in o["loc"])
+    with rep.isolated():
+        d9(model, rep)
+
+
+def d9(model: Model, rep: Report):
+    from .c01 import r7
+    from .common import share_rule
+    share_rule(rep, model, r7, "C04.D9", "what follows a block starts at the block's reported end only if the block's heads carry the block's own relation (type included) into the "
+               "listing and repeated copies are chained behind all leaves (= C01.R7): heads that lose the relation type, or are decomposed before they receive it, sit elsewhere "
+               "than the block reports")
 
 
 def front_rule(model: Model, rep: Report):
